@@ -224,3 +224,33 @@ def fact_nf(fact, atom_map=None):
         k, p = raw
         return canon(*{"gt0": ("ge0", -p), "ge0": ("gt0", -p), "eq0": ("ne0", p), "ne0": ("eq0", p)}[k])
     return (atom, pol)
+
+
+def truth_rows(nfs, atoms):
+    """Partial assignment {atom index: bool} described by a set of comparison normal forms
+    over the given atom NFs; None if a fact mentions none of the atoms (unknown condition)."""
+    row = {}
+    for nf in nfs:
+        hit = False
+        for i, a in enumerate(atoms):
+            if nf == a:
+                row[i] = True
+                hit = True
+            elif nf == negate_cmp(a):
+                row[i] = False
+                hit = True
+        if not hit:
+            return None
+    return row
+
+
+def models_of(rows, n):
+    """All total assignments over n atoms consistent with at least one partial row."""
+    import itertools
+    out = set()
+    for bits in itertools.product([False, True], repeat=n):
+        for r in rows:
+            if all(bits[i] == v for i, v in r.items()):
+                out.add(bits)
+                break
+    return out
